@@ -38,6 +38,10 @@ pub struct Case {
     /// every member of the group prints this many bytes before it starts waiting for the others
     #[serde(default)]
     pub early_output: u64,
+    /// one more member of the group does not define the rendezvous command at all (status
+    /// `undefined`); it takes no part in the rendezvous
+    #[serde(default)]
+    pub undefined_member: bool,
 }
 
 pub fn strategy(max_n: usize) -> impl Strategy<Value = Case> {
@@ -89,6 +93,7 @@ pub fn strategy(max_n: usize) -> impl Strategy<Value = Case> {
                 nofile_per_member: if n >= 24 && !listener { nofile_per_member } else { 0 },
                 // more than a pipe buffer (64 KiB) per member; kept to small groups
                 early_output: if n <= 12 { early_output } else { 0 },
+                undefined_member: gp % 4 == 0,
             }
         })
 }
@@ -127,12 +132,17 @@ fn attempt(case: &Case, w: usize, timeout_ms: u64) -> Result<(bool, CaseInfo, Va
         env.nofile = Some(case.nofile_per_member * widest as u64 / 2 + 24);
     }
     let commands: Vec<String> = (0..case.ncmd).map(|i| format!("c{}", i)).collect();
+    let undefined: Option<String> = if case.undefined_member && !case.shared_exe && n >= 3 { Some(members[n - 1].clone()) } else { None };
+    let n_wait = n - undefined.is_some() as usize;
     let mut beh = BTreeMap::new();
     for (ci, c) in commands.iter().enumerate() {
         for t in &cfg.targets {
+            if ci == case.barrier_cmd && Some(&t.path) == undefined.as_ref() {
+                continue; // no command file: undefined
+            }
             let mut b = Behavior::default();
             if ci == case.barrier_cmd && members.contains(&t.path) {
-                b.barrier = Some((format!("g{}", gi), n, timeout_ms));
+                b.barrier = Some((format!("g{}", gi), n_wait, timeout_ms));
                 b.pre_out_bytes = case.early_output;
             }
             beh.insert((c.clone(), t.path.clone()), b);
@@ -162,6 +172,9 @@ fn attempt(case: &Case, w: usize, timeout_ms: u64) -> Result<(bool, CaseInfo, Va
         let mut hb = BTreeMap::new();
         for (ci, c) in commands.iter().enumerate() {
             for t in &cfg.targets {
+                if ci == case.barrier_cmd && Some(&t.path) == undefined.as_ref() {
+                    continue;
+                }
                 let mut b = Behavior::default();
                 if ci == case.barrier_cmd {
                     if let Some(k) = members.iter().position(|m| m == &t.path) {
@@ -225,6 +238,7 @@ fn attempt(case: &Case, w: usize, timeout_ms: u64) -> Result<(bool, CaseInfo, Va
         .class_if(case.history != 0, "after-an-earlier-run")
         .class_if(case.nofile_per_member > 0, "modest-open-files-limit")
         .class_if(case.early_output > 0, "members-print-more-than-a-pipe-buffer-first")
+        .class_if(undefined.is_some(), "one-member-does-not-define-the-command")
         .class_if(history_failures > 0 && history_failures < n, "earlier-run-failed-for-part-of-the-group")
         .inv(env.invocations);
     let obs = json!({"group": members, "timeouts": timeouts, "run": out.brief()});
@@ -250,8 +264,8 @@ fn attempt(case: &Case, w: usize, timeout_ms: u64) -> Result<(bool, CaseInfo, Va
         })
         .collect::<std::collections::BTreeSet<_>>()
         .len();
-    if started != n {
-        return viol_obs("c16.members", format!("{} of {} group members were started", started, n), obs);
+    if started != n_wait {
+        return viol_obs("c16.members", format!("{} of {} group members that define the command were started", started, n_wait), obs);
     }
     Ok((false, info, obs))
 }
